@@ -97,6 +97,10 @@ func c04() {
 				}
 			}
 		}
+		if i >= len(sweeps) && i < len(sweeps)+nRandom && i%5 == 3 {
+			run.Count("policies_with_data_bits_in_group_actions", 1)
+			vlib.WithDataBits(r, p)
+		}
 		spec := vlib.SpecOf(p, t.Name)
 		c := vlib.Compile(p, t)
 		run.Count("policies", 1)
